@@ -94,7 +94,7 @@ fn run_generic(env: &mut Env, target: Target) -> Outcome {
     let ctxrc = env.ctx.clone();
     let (lens, payloads, plan) = {
         let mut ctx = ctxrc.borrow_mut();
-        let nmsg = 1 + ctx.choose("nmsg", 3) as usize;
+        let nmsg = if ctx.chance("more_messages", 1, 8) { 4 + ctx.choose("nmsg_more", 3) as usize } else { 1 + ctx.choose("nmsg", 3) as usize };
         let stratum = if env.thorough && env.case % 2 == 0 { Some((env.case / 2) as usize) } else { None };
         let mut lens = Vec::new();
         let mut payloads = Vec::new();
